@@ -168,19 +168,35 @@ def main(run):
     doc = build_doc(s, exprs)
     work = os.path.join(build.BUILD, "work", "C13-%d" % run.seed)
     os.makedirs(work, exist_ok=True)
-    renderings = {"sdl": ("graphql", render_sdl(s)), "sdl-builtins-declared": ("graphql", render_sdl(s, declare_builtins=True)),
+    # the same schema with its root called `RootQ` in a schema block, next to ordinary object types that merely carry the
+    # conventional root names and have same-named fields of other types (SDL only: JSON names its roots anyway)
+    import copy as _copy
+    s_roots = Schema(_copy.deepcopy(s.d))
+    qname = s_roots.roots["query"]
+    qdef = s_roots.types.pop(qname)
+    s_roots.order[s_roots.order.index(qname)] = "RootQ"
+    s_roots.types["RootQ"] = qdef
+    s_roots.roots["query"] = "RootQ"
+    s_roots.d["schema_block"] = True
+    s_roots.add("Query", {"kind": "object", "implements": [], "fields": [{"name": "holder", "type": L(T("Int")), "args": [], "deprecated": None}, {"name": "holderI", "type": NN(T("String")), "args": [], "deprecated": None}]})
+    s_roots.add("Mutation", {"kind": "object", "implements": [], "fields": [{"name": "holder", "type": T("Int"), "args": [], "deprecated": None}]})
+    renderings = {"sdl": ("graphql", render_sdl(s)), "sdl-renamed-roots": ("graphql", render_sdl(s_roots)), "sdl-builtins-declared": ("graphql", render_sdl(s, declare_builtins=True)),
                   # every object type split: a part of its fields arrives in `extend type` blocks (at random places of the file)
                   "sdl-extended": ("graphql", render_sdl(s, rng=run.sub_rng("extend"), extend="all")), "json": ("json", render_json(s)), "json-data": ("json", render_json(s, wrapped=True, builtins="all"))}
     doc_text = render_document(doc)
+    # one query FILE for every rendering and option set, all in one driver process: whatever is remembered about the file must not
+    # carry one schema's ids over to the next
+    qpath = os.path.join(work, "all_positions.graphql")
+    open(qpath, "w").write(doc_text)
     reqs = []
     for name, (ext, text) in renderings.items():
         p = os.path.join(work, "schema_%s.%s" % (name.replace("-", "_"), ext))
         open(p, "w").write(text)
-        reqs.append({"id": name, "schema_path": p, "query_text": doc_text, "options": {"mode": "cli"}, "want": ["inspect"]})
+        reqs.append({"id": name, "schema_path": p, "query_path": qpath, "options": {"mode": "cli"}, "want": ["inspect"]})
         if name in ("sdl", "json"):
             # Rust-side options that have nothing to do with type expressions: the rule is the same under each of them
-            reqs.append({"id": name + "+allow", "schema_path": p, "query_text": doc_text, "options": {"mode": "cli", "deprecation": "allow"}, "want": ["inspect"]})
-            reqs.append({"id": name + "+skip-none", "schema_path": p, "query_text": doc_text, "options": {"mode": "cli", "skip_none": True, "normalization": "rust"}, "want": ["inspect"]})
+            reqs.append({"id": name + "+allow", "schema_path": p, "query_path": qpath, "options": {"mode": "cli", "deprecation": "allow"}, "want": ["inspect"]})
+            reqs.append({"id": name + "+skip-none", "schema_path": p, "query_path": qpath, "options": {"mode": "cli", "skip_none": True, "normalization": "rust"}, "want": ["inspect"]})
     resps = run_gendrv(reqs)
     by_code = {(c or "p"): build_type(c, "@") for c in exprs}
     for req, resp in zip(reqs, resps):
